@@ -28,6 +28,14 @@ def dot8Go (s : α) : List α → List α → α
 
 def dot8 (x y : List α) : α := dot8Go 0 x y
 
+/- Force the functional-induction principles (and with them the matcher congruence equations) of the
+two kernels to be generated *here*: downstream modules that each generate them on demand
+(`fun_induction`, `split`) could otherwise not be imported together (duplicate auxiliary declarations). -/
+theorem sum8Go_induct_gen (s : α) (x : List α) : True := by
+  fun_induction sum8Go s x <;> trivial
+theorem dot8Go_induct_gen (s : α) (x y : List α) : True := by
+  fun_induction dot8Go s x y <;> trivial
+
 /-- `utils::dot` including the length assert (`none` = panic). -/
 def dot? (x y : List α) : Option α := if x.length = y.length then some (dot8 x y) else none
 
